@@ -9,11 +9,15 @@ namespace Resp
 namespace Ex
 
 /-- GET, keep-alive, `Accept-Encoding` sent by the client -/
-def rcGet : ReqCtx := ⟨[71, 69, 84], false, false, []⟩
+def rcGet : ReqCtx := ⟨[71, 69, 84], false, false, [], 1⟩
 /-- GET, keep-alive, the transport itself asked for gzip -/
-def rcGetGz : ReqCtx := ⟨[71, 69, 84], false, true, []⟩
+def rcGetGz : ReqCtx := ⟨[71, 69, 84], false, true, [], 1⟩
+/-- GET from an HTTP/1.0 client that asked for keep-alive -/
+def rcGet10 : ReqCtx := ⟨[71, 69, 84], false, false, [], 0⟩
+/-- GET from an HTTP/1.0 client that asked for keep-alive; the transport itself asked for gzip -/
+def rcGetGz10 : ReqCtx := ⟨[71, 69, 84], false, true, [], 0⟩
 /-- HEAD -/
-def rcHead : ReqCtx := ⟨[72, 69, 65, 68], false, false, []⟩
+def rcHead : ReqCtx := ⟨[72, 69, 65, 68], false, false, [], 1⟩
 
 /-- `HTTP/1.1 200 OK; Connection: X-Hop, keep-alive; X-Hop: 1; Keep-Alive: timeout=5; Set-Cookie: a=1; Transfer-Encoding: chunked; Trailer: X-Sum; set-cookie: b=2; Content-Type: text/plain` -/
 def oChunked : OriginResp :=
@@ -46,14 +50,14 @@ def oGzChunked : OriginResp :=
      ([84, 114, 97, 110, 115, 102, 101, 114, 45, 69, 110, 99, 111, 100, 105, 110, 103], [99, 104, 117, 110, 107, 101, 100]),
      ([86, 97, 114, 121], [65, 99, 99, 101, 112, 116, 45, 69, 110, 99, 111, 100, 105, 110, 103])]⟩
 
-/-- `HTTP/1.1 200 OK; Content-Encoding: gzip; Content-Length: 20   (F22)` -/
-def oF22 : OriginResp :=
+/-- `HTTP/1.1 200 OK; Content-Encoding: gzip; Content-Length: 20`   (the shape of the repaired F22) -/
+def oGzLen : OriginResp :=
   ⟨1, 200, [79, 75],
     [([67, 111, 110, 116, 101, 110, 116, 45, 69, 110, 99, 111, 100, 105, 110, 103], [103, 122, 105, 112]),
      ([67, 111, 110, 116, 101, 110, 116, 45, 76, 101, 110, 103, 116, 104], [50, 48])]⟩
 
-/-- `HTTP/1.1 304 Not Modified; Transfer-Encoding: chunked; Trailer: X-T   (F1)` -/
-def oF1 : OriginResp :=
+/-- `HTTP/1.1 304 Not Modified; Transfer-Encoding: chunked; Trailer: X-T`   (the shape of the repaired F1) -/
+def oHoTrailer : OriginResp :=
   ⟨1, 304, [78, 111, 116, 32, 77, 111, 100, 105, 102, 105, 101, 100],
     [([84, 114, 97, 110, 115, 102, 101, 114, 45, 69, 110, 99, 111, 100, 105, 110, 103], [99, 104, 117, 110, 107, 101, 100]),
      ([84, 114, 97, 105, 108, 101, 114], [88, 45, 84])]⟩
@@ -95,15 +99,31 @@ def rGzChunked : ClientResp :=
      ([118, 97, 114, 121], [[65, 99, 99, 101, 112, 116, 45, 69, 110, 99, 111, 100, 105, 110, 103]])],
     Framing.chunked [], .gunzip, true⟩
 
-def rF22 : ClientResp :=
+/-- gunzipped, length lost: re-framed as chunked, connection kept -/
+def rGzLen : ClientResp :=
   ⟨1, 200, [79, 75],
-    [],
-    Framing.unframed, .gunzip, true⟩
+    [([116, 114, 97, 110, 115, 102, 101, 114, 45, 101, 110, 99, 111, 100, 105, 110, 103], [[99, 104, 117, 110, 107, 101, 100]])],
+    Framing.chunked [], .gunzip, true⟩
 
-def rF1 : ClientResp :=
+/-- the same for an HTTP/1.0 client: close-delimited -/
+def rGzLen10 : ClientResp :=
+  ⟨1, 200, [79, 75],
+    [([99, 111, 110, 110, 101, 99, 116, 105, 111, 110], [[99, 108, 111, 115, 101]])],
+    Framing.eof, .gunzip, false⟩
+
+/-- header-only with a declared trailer: `Trailer: X-T`, then the blank line -/
+def rHoTrailer : ClientResp :=
   ⟨1, 304, [78, 111, 116, 32, 77, 111, 100, 105, 102, 105, 101, 100],
-    [],
-    Framing.unterminatedHead, .dropped, true⟩
+    [([116, 114, 97, 105, 108, 101, 114], [[88, 45, 84]])],
+    Framing.none, .dropped, true⟩
+
+/-- `oChunked` for an HTTP/1.0 client: no chunking, no trailer, close-delimited -/
+def rChunked10 : ClientResp :=
+  ⟨1, 200, [79, 75],
+    [([115, 101, 116, 45, 99, 111, 111, 107, 105, 101], [[97, 61, 49], [98, 61, 50]]),
+     ([99, 111, 110, 116, 101, 110, 116, 45, 116, 121, 112, 101], [[116, 101, 120, 116, 47, 112, 108, 97, 105, 110]]),
+     ([99, 111, 110, 110, 101, 99, 116, 105, 111, 110], [[99, 108, 111, 115, 101]])],
+    Framing.eof, .same, false⟩
 
 def rF25 : ClientResp :=
   ⟨1, 200, [79, 75],
@@ -132,9 +152,13 @@ theorem evalNotMod : processResponse rcGet oNotMod = .ok rNotMod := by resp_eval
 
 theorem evalGzChunked : processResponse rcGetGz oGzChunked = .ok rGzChunked := by resp_eval
 
-theorem evalF22 : processResponse rcGetGz oF22 = .ok rF22 := by resp_eval
+theorem evalGzLen : processResponse rcGetGz oGzLen = .ok rGzLen := by resp_eval
 
-theorem evalF1 : processResponse rcGet oF1 = .ok rF1 := by resp_eval
+theorem evalGzLen10 : processResponse rcGetGz10 oGzLen = .ok rGzLen10 := by resp_eval
+
+theorem evalHoTrailer : processResponse rcGet oHoTrailer = .ok rHoTrailer := by resp_eval
+
+theorem evalChunked10 : processResponse rcGet10 oChunked = .ok rChunked10 := by resp_eval
 
 theorem evalF25 : processResponse rcGet oF25 = .ok rF25 := by resp_eval
 
